@@ -115,6 +115,14 @@ def regenerate():
     return None
 
 
+def regenerate_mut():
+    """tools/gen_mut.py: the numeric mutators -> coq/gen/SrcMutFns.v; returns None, or what could not be translated"""
+    rc, out = sh([sys.executable, os.path.join(VERIF, 'tools', 'gen_mut.py'), REPO, os.path.join(COQ, 'gen')])
+    if rc not in (0, 3):
+        raise Infra('gen_mut crashed:\n' + out)
+    return out.strip() if rc == 3 else None
+
+
 def coq_make(target=None, timeout=1500):
     if not os.path.exists(os.path.join(COQ, 'Makefile')):
         sh('coq_makefile -f _CoqProject -o Makefile', cwd=COQ, check=True)
@@ -270,7 +278,13 @@ def gen_cases(seed, tier, unsafe_share=True):
             src = 'seed:%d' % rng.below(1 << 32)
         else:
             src = 'bytes:' + (rand_bytes(rng, 4096 if mx >= 60 else 600).hex() or '-')
-        cases.append(spec('g%d' % k, v, mn, mx, rate, unsafe, ext, buf, muts, src))
+        # knobs the output must not depend on: with_buffer_size (read by nothing), the other spelling of the builder calls
+        extra = ''
+        if rng.below(3) == 0:
+            extra += ' bufsz=%d' % rng.choice([0, 1, 16, 48, 64, 512, 4096, 1 << 20])
+        if rng.below(4) == 0:
+            extra += ' api=1'
+        cases.append(spec('g%d' % k, v, mn, mx, rate, unsafe, ext, buf, muts, src, extra))
         k += 1
     # a used generator: the same kind of case after earlier (unrecorded) calls on the same object - every suite that reads the
     # trace (candidate sets, simulated state against the reference machine, oracles) must see what a fresh generator shows
@@ -418,6 +432,35 @@ def compiled_paths(log):
     return out
 
 
+def run_harness(mode, cpath, out_path, extra=(), log=None, timeout=3000):
+    """pf-harness <mode> <case file> [extra]; stdout -> out_path.  The harness ends with status 3 and `HANG <case>` lines when
+    a case does not return within its deadline (C09): those cases are taken out of the case file and the rest is run again.
+    Returns the case lines that hung."""
+    hung = []
+    for _ in range(25):
+        with open(out_path, 'w') as f:
+            p = subprocess.run([HBIN, mode, cpath] + list(extra), stdout=f, stderr=subprocess.PIPE, env=ENV, timeout=timeout)
+        if p.returncode == 3:
+            now = [l[5:] for l in p.stderr.decode(errors='replace').splitlines() if l.startswith('HANG ')]
+            if now:
+                hung += now
+                keep = [l for l in open(cpath).read().splitlines() if l.strip() and l not in set(now)]
+                open(cpath, 'w').write('\n'.join(keep) + '\n')
+                if log:
+                    log('harness %s: %d case(s) did not return within the deadline; re-running without them' % (mode, len(now)))
+                continue
+        if p.returncode != 0:
+            raise Infra('harness %s failed: %s' % (mode, p.stderr.decode(errors='replace')[-2000:]))
+        return hung
+    raise Infra('harness %s: cases keep hanging' % mode)
+
+
+def hang_props(hung):
+    return [{'id': re.search(r'\bid=(\S+)', l).group(1) if re.search(r'\bid=(\S+)', l) else 'hang', 'prop': 'C09',
+             'detail': 'the call did not return within the deadline (%s s): generation does not terminate' % os.environ.get('VERIF_CASE_DEADLINE', '60')}
+            for l in hung]
+
+
 def run_s1(seed, tier, log):
     """Runs the implementation (hooks on) over the case set and, on the recorded traces, the model:
     S1 = step-wise membership in the envelope + property oracles, S2 = bit-exact level-F model.
@@ -436,10 +479,7 @@ def run_s1(seed, tier, log):
         f.write('\n'.join(cases) + '\n')
     t0 = time.time()
     tpath = os.path.join(d, 'trace.txt')
-    with open(tpath, 'w') as f:
-        p = subprocess.run([HBIN, 'trace', cpath, '16'], stdout=f, stderr=subprocess.PIPE, env=ENV, timeout=3000)
-    if p.returncode != 0:
-        raise Infra('harness trace failed: %s' % p.stderr.decode()[-2000:])
+    hung = run_harness('trace', cpath, tpath, ['16'], log)
     log('S1/S2: harness ran %d cases in %.1fs' % (len(cases), time.time() - t0))
     t0 = time.time()
     shards = shard_trace(tpath, 16)
@@ -451,6 +491,8 @@ def run_s1(seed, tier, log):
             raise Infra('driver failed: %s' % o[-2000:])
     log('S1/S2: model checked the traces in %.1fs' % (time.time() - t0))
     res = parse_verdicts('\n'.join(outs))
+    res['props'] += hang_props(hung)
+    res['hung'] = [p_['id'] for p_ in hang_props(hung)]
     res['ncases'] = len(cases)
     res['cases_path'] = cpath
     res['key'] = key
@@ -462,6 +504,111 @@ def run_s1(seed, tier, log):
     json.dump(res, open(res_path, 'w'))
     prune_cache()
     return res
+
+# ----------------------------------------------------------------------------- search for a failing input when S1 disagrees
+def _recipe(kind, v):
+    """opcode path that pushes exactly one object of the simulated kind (letter of the trace) in protocol v"""
+    r = {'I': 'INT', 'B': 'NEWTRUE' if v >= 2 else 'INT', 'F': 'BINFLOAT' if v >= 1 else 'FLOAT', 'N': 'NONE',
+         'S': 'BINUNICODE' if v >= 1 else 'UNICODE', 'Y': 'BINSTRING' if v >= 1 else None, 'A': 'BYTEARRAY8' if v >= 5 else None,
+         'L': 'EMPTY_LIST' if v >= 1 else 'MARK;LIST', 'T': 'EMPTY_TUPLE' if v >= 1 else 'MARK;TUPLE',
+         'D': 'EMPTY_DICT' if v >= 1 else 'MARK;NONE;NONE;DICT', 'E': 'EMPTY_SET' if v >= 4 else None,
+         'Z': 'MARK;FROZENSET' if v >= 4 else None, 'M': 'MARK', 'C': 'GLOBAL',
+         'O': 'GLOBAL;EMPTY_TUPLE;REDUCE' if v >= 1 else 'GLOBAL;MARK;TUPLE;REDUCE'}
+    return r.get(kind)
+
+
+def _trace_one(case_line, tmp):
+    cp = os.path.join(tmp, 'steer_case.txt')
+    open(cp, 'w').write(case_line + '\n')
+    p = subprocess.run([HBIN, 'trace', cp, '1'], stdout=subprocess.PIPE, stderr=subprocess.PIPE, text=True, env=ENV, timeout=600)
+    return p.stdout
+
+
+def steer_search(res, log, limit=12):
+    """S1 found steps where the implementation offers an opcode the model's guard forbids (valid-set disagreement) but no run
+    happened to pick it.  For each such (state, opcode): rebuild the simulated state from scratch with a minimal opcode path
+    (compiled by the model into fuzzer bytes), make the implementation pick exactly that opcode next, let it finish, and judge
+    the output with all oracles.  Returns parse_verdicts-style props (concrete failing inputs) and the specs of the new cases."""
+    norm = lambda n: n.replace('_', '').lower()
+    todo, seen = [], set()
+    for d in res['diffs']:
+        m = re.match(r'valid-set impl=(\S*) model=(\S*)', d['what'])
+        if not m:
+            continue
+        impl, model = [x for x in m.group(1).split(',') if x], [x for x in m.group(2).split(',') if x]
+        extra = [x for x in impl if norm(x) not in set(norm(y) for y in model)]
+        if extra and d['id'] in res['specs']:
+            todo.append((d['id'], int(d['step'].split('=')[1]), extra))
+    props, specs, tried = [], {}, 0
+    tmp = os.path.join(BUILD, 'steer')
+    os.makedirs(tmp, exist_ok=True)
+    for (cid, step, extra) in todo:
+        if tried >= limit:
+            break
+        line = res['specs'][cid]
+        v = int(re.search(r'\bv=(\d)', line).group(1))
+        steps = [l.split() for l in _trace_one(line, tmp).splitlines() if l.startswith('STEP ')]
+        if step < 1 or step > len(steps):
+            continue
+        stack, memo = ('-', '-') if step == 1 else (steps[step - 2][6], steps[step - 2][7])
+        for x in extra:
+            sig = (v, stack, memo, norm(x), re.sub(r'\b(id|src|min|max)=\S+', '', line))
+            if sig in seen:
+                continue
+            seen.add(sig)
+            path = []
+            okp = True
+            for e in ([] if memo == '-' else memo.split(',')):
+                r = _recipe(e.split(':')[1], v)
+                if r is None or e.split(':')[1] == 'M':
+                    okp = False
+                    break
+                path += [r, 'PUT', 'POP']
+            for k in ('' if stack == '-' else stack):
+                r = _recipe(k, v)
+                if r is None:
+                    okp = False
+                    break
+                path.append(r)
+            if not okp:
+                continue
+            n = sum(len(x_.split(';')) for x_ in path)
+            flags = ' '.join(w for w in line.split() if re.match(r'(rate|unsafe|ext|buf|muts)=', w))
+            def compiled(tail):
+                pf = os.path.join(tmp, 'steer.paths')
+                open(pf, 'w').write('v=%d %s tail=%s path=%s\n' % (v, flags, tail, ';'.join(path)) if path else '')
+                if not path:
+                    pre = '00' if v >= 4 else ''
+                    return 'id=steer v=%d min=1 max=1 %s src=bytes:%s' % (v, flags, pre + tail)
+                q = subprocess.run([DRIVER, 'paths', pf], stdout=subprocess.PIPE, stderr=subprocess.PIPE, text=True, env=ENV, timeout=600)
+                ls = [l for l in q.stdout.splitlines() if l.startswith('id=')]
+                if not ls:
+                    return None
+                return re.sub(r'\bmax=\d+', 'max=%d' % (n + 1), re.sub(r'\bmin=\d+', 'min=%d' % (n + 1), ls[0]))
+            probe = compiled('00' * 80)
+            if probe is None:
+                continue
+            psteps = [l.split() for l in _trace_one(probe, tmp).splitlines() if l.startswith('STEP B ')]
+            if len(psteps) != n + 1:
+                continue
+            cands = psteps[-1][2].split(',')
+            if x not in cands:
+                continue          # the rebuilt state does not reproduce the disagreement
+            tried += 1
+            final = compiled('%02x' % cands.index(x) + '00' * 80)
+            fid = 'steer%d' % tried
+            final = re.sub(r'\bid=\S+', 'id=' + fid, final, 1)
+            tp = os.path.join(tmp, 'steer_trace.txt')
+            open(tp, 'w').write(_trace_one(final, tmp))
+            out = subprocess.run([DRIVER, 's1', tp], stdout=subprocess.PIPE, stderr=subprocess.STDOUT, text=True, env=ENV, timeout=600).stdout
+            pv = parse_verdicts(out)
+            specs[fid] = final
+            for pr in pv['props']:
+                pr['detail'] += ' (found by steering the implementation into %s in simulated state stack=%s memo=%s, where the model forbids it; disagreement first seen in case %s step %d)' % (x, stack, memo, cid, step)
+                props.append(pr)
+    if todo:
+        log('steer: %d valid-set disagreement(s) with an opcode only the implementation offers, %d state(s) rebuilt and steered, %d oracle failure(s)' % (len(todo), tried, len(props)))
+    return props, specs
 
 
 def result_hashes(tpath):
@@ -489,7 +636,7 @@ def run_c07(seed, tier, log):
         log('c07: cached result %s' % key)
         return json.load(open(res_path))
     os.makedirs(d, exist_ok=True)
-    cases = list(main['specs'].values())
+    cases = [c for i_, c in main['specs'].items() if i_ not in set(main.get('hung', []))]
     cases = [c for c in cases if 'src=seed:' in c or 'src=bytes:' in c]
     rng = SplitMix64(seed ^ 0xC07)
     orders = {'reversed/1-thread': (list(reversed(cases)), 1),
@@ -1035,10 +1182,42 @@ def run_s9(seed, tier, log):
             props.append({'id': 'deep-v%d-n%d-stack%d' % (v, n, kb), 'prop': 'C09',
                           'detail': 'nesting depth %d on a %s stack: process died (rc %d) %s' % (
                               n, ('%d KiB thread' % kb) if kb else 'main-thread', p.returncode, (p.stderr or '').strip()[-120:])})
+    # deep objects at every structural position: guards (can_emit and its helpers run before every opcode), the stack
+    # simulation, memo clones, aliasing, the registry of cells modified in place and the teardown all meet a nested object
+    # - paths compiled by the model, one child process each
+    n = 30000 if tier == 'quick' else 200000
+    shapes = {2: ['EMPTY_DICT;NONE;TUPLE1*%d;NONE' % n, 'MARK;NONE;TUPLE1*%d;NONE;NONE' % n, 'EMPTY_LIST;NONE;TUPLE1*%d;APPEND;NONE' % n,
+                  'NONE;TUPLE1*%d;BINPUT;BINGET;TUPLE2;BINGET' % n, 'NONE;TUPLE1*%d;DUP;TUPLE2;DUP' % n,
+                  'GLOBAL;NONE;TUPLE1*%d;REDUCE;NONE;TUPLE1;BUILD' % n, 'EMPTY_DICT;NONE;NONE;TUPLE1*%d;SETITEM;NONE' % n,
+                  'EMPTY_LIST;MARK;NONE;TUPLE1*%d;APPENDS;DUP;APPEND' % n],
+              4: ['EMPTY_SET;MARK;NONE;TUPLE1*%d;ADDITEMS;NONE' % n, 'MARK;NONE;TUPLE1*%d;FROZENSET;MEMOIZE;NONE' % n,
+                  'NONE;TUPLE1*%d;MEMOIZE;BINGET;TUPLE2' % n],
+              1: ['MARK;NONE;MARK;LIST;APPEND;LIST' + ';MARK;NONE;MARK;LIST;APPEND;LIST' * 2]}
+    pf = os.path.join(BUILD, 'deep.paths')
+    plines = ['v=%d path=%s' % (v, sh_) for v, ss in shapes.items() for sh_ in ss]
+    open(pf, 'w').write('\n'.join(plines) + '\n')
+    q = subprocess.run([DRIVER, 'paths', pf], stdout=subprocess.PIPE, stderr=subprocess.PIPE, text=True, env=ENV, timeout=1200)
+    dcases = [l.replace('id=p', 'id=deep', 1) for l in q.stdout.splitlines() if l.startswith('id=')]
+    for l in q.stderr.splitlines():
+        log('s9 paths: ' + l)
+    dspecs = {}
+    for k_, dc in enumerate(dcases):
+        cp = os.path.join(BUILD, 'deepcase%d.txt' % k_)
+        open(cp, 'w').write(dc + '\n')
+        did = re.search(r'\bid=(\S+)', dc).group(1)
+        p = subprocess.run([HBIN, 'deepcase', cp, '2048'], stdout=subprocess.PIPE, stderr=subprocess.PIPE, env=ENV, timeout=900, text=True)
+        ok = p.returncode == 0 and 'DEEP-OK' in p.stdout and ' RESULT ok' in p.stdout
+        runs.append(dict(case=did, path=plines[k_][:80] if k_ < len(plines) else '', stack_kb=2048, ok=ok, rc=p.returncode))
+        os.remove(cp)
+        if not ok:
+            dspecs['deepcase-' + did] = dc
+            props.append({'id': 'deepcase-' + did, 'prop': 'C09',
+                          'detail': 'deeply nested object (%s) on a 2 MiB thread: %s' % (plines[k_][:70] if k_ < len(plines) else did,
+                                    ('process died (rc %d) %s' % (p.returncode, (p.stderr or '').strip()[-120:])) if 'DEEP-OK' not in p.stdout else p.stdout.strip()[-100:])})
     res = dict(ok=[], diffs=[], props=props, stats={}, ncases=len(runs), okn=sum(r['ok'] for r in runs), nops=len(runs),
-               specs={}, samples=runs[:3], runs=runs)
+               specs=dspecs, samples=runs[:3], runs=runs)
     for pr in props:
-        res['specs'][pr['id']] = pr['id'] + ' (pf-harness deep: NONE then TUPLE1 x n, generate and drop)'
+        res['specs'].setdefault(pr['id'], pr['id'] + ' (pf-harness deep: NONE then TUPLE1 x n, generate and drop)')
     log('s9: %d deep-nesting child processes, %d died, %.1fs' % (len(runs), len(props), time.time() - t0))
     return res
 
@@ -1206,10 +1385,7 @@ def run_lines_suite(name, mode_h, mode_d, cases, seed, tier, log):
         f.write('\n'.join(cases) + '\n')
     tpath = os.path.join(d, 'trace.txt')
     t0 = time.time()
-    with open(tpath, 'w') as f:
-        p = subprocess.run([HBIN, mode_h, cpath], stdout=f, stderr=subprocess.PIPE, env=ENV, timeout=3000)
-    if p.returncode != 0:
-        raise Infra('harness %s failed: %s' % (mode_h, p.stderr.decode()[-2000:]))
+    hung = run_harness(mode_h, cpath, tpath, [], log)
     shards = shard_trace(tpath, 16)
     procs = [subprocess.Popen([DRIVER, mode_d, s], stdout=subprocess.PIPE, stderr=subprocess.STDOUT, text=True, env=ENV) for s in shards]
     outs = [p.communicate(timeout=3000)[0] for p in procs]
@@ -1218,6 +1394,7 @@ def run_lines_suite(name, mode_h, mode_d, cases, seed, tier, log):
             raise Infra('driver failed: %s' % o[-2000:])
     text = '\n'.join(outs)
     res = parse_verdicts(text)
+    res['props'] += hang_props(hung)
     res['okn'] = sum(1 for l in text.splitlines() if l.startswith('OK'))
     res['nops'] = sum(int(m.group(1)) for m in re.finditer(r'^OK\d \S+ (?:ops|calls)=(\d+)', text, re.M))
     res['ncases'] = len(cases)
@@ -1276,6 +1453,94 @@ def gen_seedwit():
     if rc not in (0, 3):
         raise Infra('gen_seedwit failed:\n' + out[-1500:])
     return rc == 0
+
+
+def gen_s8_cases(seed, tier):
+    """states built by hand in the implementation: every stack of depth <= 2 over all 15 reachable kinds, every stack of
+    depth 3 over a reduced alphabet, random deeper ones (MARK-heavy), with empty and non-empty memo tables; for each: the
+    candidate set, one emission of every opcode of the protocol's row on two entropy inputs, and the collapse tail"""
+    rng = SplitMix64(seed ^ 0x58585858)
+    full, red = 'IFBNYSALTDEZMCO', 'ISLDETMCOY'
+    stacks = ['-'] + [a for a in full] + [a + b for a in full for b in full]
+    stacks3 = [a + b + c for a in red for b in red for c in red]
+    deep = []
+    for _ in range(400 if tier == 'quick' else 6000):
+        n = 4 + rng.below(4)
+        deep.append(''.join(rng.choice('MMLDETSCOIN' if rng.below(2) else full) for _ in range(n)))
+    p = subprocess.run([DRIVER, 'vocab'], stdout=subprocess.PIPE, text=True, env=ENV, timeout=600)
+    rows = {}
+    for l in p.stdout.splitlines():
+        m = re.match(r'VOCAB v=(\d) (.*)', l)
+        if m:
+            rows[int(m.group(1))] = [x.split(':')[1] for x in m.group(2).split(',') if x.split(':')[1] not in ('PROTO', 'FRAME', 'STOP')]
+    memos = ['-', '0:L,1:I', '0:D,1:S,2:O,3:T']
+    srcs = ['-', '0102030405060708090a0b0c0d0e0f101112131415161718191a1b1c1d1e1f20212223242526272829']
+    cases, k = [], 0
+    def add(v, stack, memo, ops, src, unsafe=0, ext=0, buf=0, muts=None):
+        nonlocal k
+        cases.append('id=e%d v=%d min=0 max=0 rate=%s unsafe=%d ext=%d buf=%d muts=%s stack=%s memo=%s ops=%s src=bytes:%s' % (
+            k, v, RATES['0.1'], unsafe, ext, buf, ','.join(muts) if muts else '-', stack, memo, ','.join(ops) if ops else '-', src))
+        k += 1
+    for v in range(6):
+        # candidate sets (and tails) everywhere; emissions where the volume allows
+        for st in stacks:
+            for mi, memo in enumerate(memos):
+                add(v, st, memo, rows[v] if (v in (0, 2, 5) or tier != 'quick') and mi < 2 else [], srcs[mi % 2], ext=int(v >= 2), buf=int(v == 5))
+        for i, st in enumerate(stacks3):
+            add(v, st, memos[i % 3], rows[v] if (v in (1, 4) and i % 4 == 0) or tier != 'quick' else [], srcs[i % 2], ext=i % 2, buf=(i // 2) % 2)
+        for i, st in enumerate(deep):
+            add(v, st, memos[i % 3], rows[v] if i % 3 == 0 else [], srcs[i % 2], unsafe=int(i % 5 == 0), ext=i % 2, buf=(i // 2) % 2)
+    # unsafe mode relaxes guards (STACK_GLOBAL): depth <= 2 again
+    for v in (4, 5):
+        for st in stacks:
+            add(v, st, '-', rows[v], srcs[1], unsafe=1, ext=1, buf=1)
+    return cases
+
+
+def run_s8(seed, tier, log):
+    """S8: bounded-exhaustive one-step comparison (see gen_s8_cases) - the hand-written Sim.v / Gen.v against
+    can_emit + utils.rs, emit_and_process + process_stack_ops and cleanup_for_stop on states built directly in the implementation"""
+    cases = gen_s8_cases(seed, tier)
+    key = hashlib.sha256(('%s|%s|%d|%s|s8' % (repo_hash(), model_hash(), seed, tier)).encode()).hexdigest()[:24]
+    d = os.path.join(CACHE, key)
+    res_path = os.path.join(d, 's8.json')
+    if os.path.exists(res_path):
+        log('s8: cached result %s' % key)
+        os.utime(d)
+        return json.load(open(res_path))
+    os.makedirs(d, exist_ok=True)
+    t0 = time.time()
+    nsh = 16
+    paths = []
+    for i in range(nsh):
+        cp = os.path.join(d, 'cases%d.txt' % i)
+        open(cp, 'w').write('\n'.join(cases[i::nsh]) + '\n')
+        paths.append(cp)
+    hp = [subprocess.Popen([HBIN, 's8', cp], stdout=open(cp + '.trace', 'w'), stderr=subprocess.PIPE, env=ENV) for cp in paths]
+    for q in hp:
+        _, err = q.communicate(timeout=3000)
+        if q.returncode != 0:
+            raise Infra('harness s8 failed: %s' % err.decode()[-1500:])
+    dp = [subprocess.Popen([DRIVER, 's8', cp + '.trace'], stdout=subprocess.PIPE, stderr=subprocess.STDOUT, text=True, env=ENV) for cp in paths]
+    outs = [q.communicate(timeout=3000)[0] for q in dp]
+    for q, o in zip(dp, outs):
+        if q.returncode != 0:
+            raise Infra('driver s8 failed: %s' % o[-1500:])
+    text = '\n'.join(outs)
+    res = parse_verdicts(text)
+    res['okn'] = sum(1 for l in text.splitlines() if l.startswith('OK8'))
+    res['nops'] = sum(int(m.group(1)) for m in re.finditer(r'^OK8 \S+ ops=(\d+)', text, re.M))
+    res['ncases'] = len(cases)
+    res['specs'] = {c.split()[0][3:]: c for c in cases}
+    res['samples'] = cases[300:301] + cases[-1:]
+    for cp in paths:
+        os.remove(cp)
+        os.remove(cp + '.trace')
+    json.dump(res, open(res_path, 'w'))
+    log('s8: %d hand-built states, %d agree, %d one-step emissions compared, %d disagreements in %.1fs' % (
+        len(cases), res['okn'], res['nops'], len(res['diffs']), time.time() - t0))
+    prune_cache()
+    return res
 
 
 def run_s3(seed, tier, log):
